@@ -557,6 +557,12 @@ class Evaluator:
             cache = self.__dict__.setdefault('_const_cache', {})
             if key in cache:
                 return cache[key]
+            if isinstance(val, ast.Subscript) and (dotted(val.value) or '').split('.')[-1] == 'Literal':
+                elts = val.slice.elts if isinstance(val.slice, ast.Tuple) else [val.slice]
+                if all(isinstance(e, ast.Constant) for e in elts):
+                    v = Tup([Const(e.value) for e in elts])
+                    cache[key] = v
+                    return v
             try:
                 v = self.eval(val, State(), Ctx(m, None, None, ctx.depth + 1))
             except Undecided:
@@ -1204,7 +1210,9 @@ class Evaluator:
             return NONE
         if mod == 'object' and name == '__repr__':
             return Const('<repr>')
-        if mod == 'typing_extensions' or mod == 'typing':
+        if mod in ('typing_extensions', 'typing'):
+            if name == 'get_args' and args and isinstance(args[0], Tup):
+                return args[0]          # get_args(Literal[...]) read from the source of the alias
             raise Undecided(f'typing call {name}')
         raise Undecided(f'external call {mod}.{name}')
 
